@@ -10,13 +10,16 @@
    kind of API per history.  [picks] resolves Python's set iteration order (which of several usable
    ports _create_socks_endpoint returns); every theorem holds for every resolution.
 
-   The second line is proved as stated (C18_client_fallback).  The first is FALSE of the faithful
-   model on the input classes of four open findings (C18-F1..F4, each with a _refuted witness
-   below); what is proved for ALL histories of the envelope is
-     * C18_every_call_ok_or_known: every call satisfies all clauses of the oracle, or is in the
-       input class of one of the four findings (so nothing else can hide behind a finding);
+   The second line is proved as stated (C18_client_fallback).  The model follows /repo after the
+   repairs 5de976f (C18-F1), 73db4d4 (C18-F2), 9344c47 (C18-F3): on those three input classes the
+   statements below are now full.  The first line is still FALSE of the faithful model on the input
+   class of the one open finding C18-F4 (a TorConfig call made after Tor refused a SETCONF of an
+   earlier call; witness C18_cfg_call_after_refused_setconf_refuted); what is proved for ALL
+   histories of the envelope is
+     * C18_every_call_ok_or_known: every call satisfies all clauses of the oracle, or is a TorConfig
+       call after a refused SETCONF (so nothing else can hide behind the finding);
      * C18_oracle_holds_partial: the full statement with the extra hypothesis "no call of the
-       history is in a finding's class", the exact complement of the four classes;
+       history is in that class", its exact complement;
      * C18_listeners_never_altered: flagged or not, after the whole history Tor's configuration
        still starts with the listeners it had, byte for byte and in order (the title clause holds
        of the model without exception). *)
@@ -55,9 +58,9 @@ Print Assumptions C18_oracle_implies_listeners_kept.
    result is the endpoint of a usable entry (never a port-0 line) with Tor left as it was; or no
    entry is usable and exactly one SETCONF follows the queries which, read with Tor's grammar, is
    every listener entry Tor reported, byte for byte and in order, then the new port.
-   _partial: the hypothesis f1c t = false excludes exactly the class of C18-F1. *)
-Theorem C18_create_existing_preserved_partial : forall t o pick,
-  tor_ok t -> dflt_le1 t -> wf_op o = true -> f1c t = false ->
+   Full since 5de976f (an unset SocksPort without a default line is "no entries"). *)
+Theorem C18_create_existing_preserved : forall t o pick,
+  tor_ok t -> dflt_le1 t -> wf_op o = true ->
   let r := choose t (o_want o) (o_avail o) (o_accept o) pick in
   (exists e, sent (fst r) = queries t /\ out (fst r) = OEp e
              /\ In e (usable_eps (o_want o) (entries t)) /\ snd r = t)
@@ -70,7 +73,21 @@ Theorem C18_create_existing_preserved_partial : forall t o pick,
                   /\ snd r = {| sp := RVals (listeners t ++ [new_line o]); dflt := dflt t |}) /\
      (o_accept o = false -> (exists n, out (fst r) = OErr n) /\ snd r = t)).
 Proof. exact create_cases. Qed.
-Print Assumptions C18_create_existing_preserved_partial.
+Print Assumptions C18_create_existing_preserved.
+
+(* TorConfig.socks_endpoint() / create_socks_endpoint(None): nothing is written; the result is the
+   endpoint of the FIRST USABLE entry (never port 0, never a line that cannot be connected to), or
+   a refusal when no entry is usable.  Full since 9344c47. *)
+Theorem C18_cfg_first_usable : forall st,
+  (forall e, In e (m_cfg st) -> okline0 e = true) ->
+  fst (cfg_first st) = {| sent := [];
+                          out := match usable_eps None (m_cfg st) with
+                                 | ep :: _ => OEp ep
+                                 | [] => OErr K_Runtime
+                                 end |}
+  /\ snd (cfg_first st) = st.
+Proof. exact cfg_first_spec. Qed.
+Print Assumptions C18_cfg_first_usable.
 
 (* the queries are read-only *)
 Theorem C18_queries_read_only : forall t,
@@ -84,29 +101,26 @@ Theorem C18_setconf_reads_back : forall k vals,
 Proof. exact decode_roundtrip. Qed.
 Print Assumptions C18_setconf_reads_back.
 
-(* on a word in one of Tor's forms the code's reading of a SocksPort line is Tor's *)
+(* on a line of the envelope the code's reading of a SocksPort line is Tor's meaning of its first
+   word, option words or not, unix: or not (full since 73db4d4); port 0 is the caller's business *)
 Theorem C18_line_to_endpoint : forall l,
-  okline0 l = true -> (prefixb UNIXP l && has_char SP l) = false -> first_word l <> ZERO ->
-  parse_line l = addr_of (first_word l).
+  okline0 l = true -> first_word l <> ZERO -> parse_line l = addr_of (first_word l).
 Proof. exact parse_line_spec. Qed.
 Print Assumptions C18_line_to_endpoint.
 
-(* ---- the open findings: the full statement fails on these inputs ---- *)
-Theorem C18_default_unresolved_refuted : refutes w_f1_tor w_f1_ops 0.
-Proof. exact f1_refuted. Qed.
-Print Assumptions C18_default_unresolved_refuted.
-
-Theorem C18_cfg_unix_line_with_options_refuted : refutes w_f2_tor w_f2_ops 1.
-Proof. exact f2_refuted. Qed.
-Print Assumptions C18_cfg_unix_line_with_options_refuted.
-
-Theorem C18_cfg_first_entry_unusable_refuted : refutes w_f3_tor w_f3_ops 2 /\ refutes w_f3b_tor w_f3_ops 2.
-Proof. exact f3_refuted. Qed.
-Print Assumptions C18_cfg_first_entry_unusable_refuted.
-
-Theorem C18_cfg_call_after_refused_setconf_refuted : refutes w_f4_tor w_f4_ops 3.
+(* ---- the open finding: the full statement fails on this input ---- *)
+Theorem C18_cfg_call_after_refused_setconf_refuted : refutes w_f4_tor w_f4_ops.
 Proof. exact f4_refuted. Qed.
 Print Assumptions C18_cfg_call_after_refused_setconf_refuted.
+
+(* the witnesses of the three repaired findings are accepted now *)
+Theorem C18_repaired_witnesses_hold :
+  oracle_hist w_f1_tor [mkop ACreate None true] (run w_f1_tor [mkop ACreate None true] []) = true /\
+  oracle_hist w_f2_tor [mkop ACfgEndpoint None true] (run w_f2_tor [mkop ACfgEndpoint None true] []) = true /\
+  oracle_hist w_f3_tor [mkop ACfgEndpoint None true] (run w_f3_tor [mkop ACfgEndpoint None true] []) = true /\
+  oracle_hist w_f3b_tor [mkop ACfgCreate None true] (run w_f3b_tor [mkop ACfgCreate None true] []) = true.
+Proof. exact repaired_witnesses. Qed.
+Print Assumptions C18_repaired_witnesses_hold.
 
 (* ---- client endpoint without a SOCKS endpoint ---- *)
 Theorem C18_client_fallback : forall given outs,
